@@ -16,6 +16,7 @@ import (
 
 	"github.com/openfga/openfga/internal/verifh/c12/wl"
 	"github.com/openfga/openfga/internal/verifh/core"
+	"github.com/openfga/openfga/internal/verifh/e1"
 	"github.com/openfga/openfga/pkg/server/commands"
 	"github.com/openfga/openfga/pkg/storage"
 	"github.com/openfga/openfga/pkg/storage/sqlite"
@@ -653,6 +654,9 @@ func Run(o *core.Options) int {
 	}
 	r := core.NewReport(o, "model_checking", rule)
 	if o.Replay != "" {
+		if isSub, code := e1.ReplaySub(o, "memw"); isSub {
+			return code // a schedule recorded by the concurrent-writers sub-harness
+		}
 		defer wl.Cleanup()
 		var c Case
 		if err := core.LoadReplay(o.Replay, &c); err != nil {
@@ -679,7 +683,7 @@ func Run(o *core.Options) int {
 		"ReadChanges end signal: storage.ErrNotFound / an empty API page",
 		"horizon: SQLite's change timestamps come from SQLite's clock (millisecond text) and cannot be bracketed by the harness: SQLite is decided for offset 0 and for an offset longer than the test's lifetime only; "+
 			"memory's straddle oracle brackets every write between two wall-clock readings and is conclusive only when the ReadChanges call demonstrably finished inside the window (inconclusive cases are counted, never judged); it assumes the wall clock does not step backwards during a case",
-		"work is sharded over single-writer child processes (sequential histories; openfga's process-global ULID entropy is not shared between concurrently written stores)",
+		"work is sharded over single-writer child processes (sequential histories; openfga's process-global ULID entropy is not shared between concurrently written stores); concurrent writers on the memory backend are decided by the instrumented sub-harness memw (coverage.concurrent_writers)",
 		"a deviation counts when 5 re-executions of the recorded case reproduce it; others are listed as anomalies")
 	cs, err := wl.RunShards(o, tag, o.Workers, start)
 	if err != nil {
@@ -701,5 +705,8 @@ func Run(o *core.Options) int {
 	r.Transitions = int64(len(p.edges))
 	r.Traces = traces
 	fmt.Printf("C15 %s: depth %d, states %d %v, transitions %d, executed on implementations %d\n", o.Tier, depth, p.states, p.perLvl, len(p.edges), traces)
+	e1.MergeSub(o, r, "memw", "C15", "concurrent_writers", memwWhat)
 	return r.Finish()
 }
+
+const memwWhat = "memory datastore with pkg/storage/memory instrumented (sync -> scheduler-visible locks) and a harness-owned clock (timestamppb.Now and time.Now return strictly increasing instants 1 ms apart, every read a scheduling point, so changelog ULIDs of different Write calls compare by the instant read): 2-3 writer threads of 1-2 Write calls (writes, deletes, mixed, conflicting on one tuple, two stores), optionally a reader thread walking ReadChanges with page size 1 while they run; every interleaving up to the preemption bound. After the threads finished the main thread walks ReadChanges with page sizes 1, 2, 50 from the start, resumes from every token issued and reads the store. Oracle per schedule: one changelog entry per item of a successful Write and none else, the same sequence for every page size, a resumed walk returns exactly the rest; every entry carries an instant its own call read from the clock; entries of one call are contiguous, deletes before writes; calls ordered in real time are ordered in the changelog; replaying the entries reproduces Read; a failed Write has a cause at some point consistent with the changelog and real time; the concurrent reader never repeats an entry, returns a prefix of the final order and misses nothing committed before its last call; no deadlock or panic. No state-key pruning (the process-global ULID entropy source is not a scheduler object)"
